@@ -328,6 +328,18 @@ H("state", "c15_cancel_after_the_mpc_task_acknowledged", needs_segment=["sc_canc
   what="counterpart: the task has sent its one notification and acknowledged; cancel() completes and answers Ok exactly once", bounds="one cancel after the acknowledgement", functions=["state::PolicyState::cancel (arm for Executing)", "tokio::sync::Notify::{notify_one, notified}"], panic_prop="C15", est_gb=1)
 
 
+H("state", "c14_run_before_schedule", needs_segment=["sc_run_fallback"],
+  what="run request in Init: the invalid-state arm of run() answers InvalidState, keeps the state, starts nothing, Continue", bounds="state Init; request with reply channel", functions=["state::PolicyState::run (body of the arm for states that cannot run)"], panic_prop="C14", stubs=[RS], est_gb=2)
+H("state", "c14_run_while_executing", needs_segment=["sc_run_fallback", "sc_executing_ctor"],
+  what="run request while Executing: InvalidState, state and endpoints kept, nothing started, Continue", bounds="state Executing; request with reply channel", functions=["state::PolicyState::run (body of the arm for states that cannot run)"], panic_prop="C14", stubs=[RS], est_gb=2)
+H("state", "c14_internal_run_while_executing", needs_segment=["sc_run_fallback", "sc_executing_ctor"],
+  what="same for the machine's own Run command (no reply channel): nothing answered, state kept", bounds="state Executing; request without reply channel", functions=["state::PolicyState::run (body of the arm for states that cannot run)"], panic_prop="C14", stubs=[RS], est_gb=2)
+H("state", "c16_ill_typed_program_is_refused_first", needs_segment=["sc_schedule_head"],
+  what="schedule() up to the endpoint creation: a program the type checker rejects -> InvalidProgram to the caller, Break, nothing else happened; an accepted one is passed on", bounds="type checker verdict arbitrary; any party/leader index", functions=["state::PolicyState::schedule (head)"], panic_prop="C16", stubs=[RS, "garble_lang::check -> arbitrary verdict (Err = Error::FnNotFound, Ok = empty program)", "garble_lang::Error::prettify -> empty String"], est_gb=2)
+H("state", "c16_leader_ends_when_a_follower_refuses", needs_segment=["sc_leader_rpcs"],
+  what="leader: a refused validate round -> ValidateFailed to the schedule caller, Break, no permit, no run requested, nothing sent", bounds="validate round fails; run round arbitrary", functions=["state::PolicyState::schedule (leader branch behind the creation of the validate futures)"], panic_prop="C16", stubs=[RS], est_gb=3)
+
+
 def by_prefix(*prefixes, tier=None):
     return [h for n, h in ALL.items() if any(n.startswith(p) for p in prefixes) and (tier is None or h["tier"] == tier)]
 
@@ -484,22 +496,22 @@ PROPS["C20"] = dict(
 PROPS["C14"] = dict(
     level="model_checking",
     level_text="Bounded model checking of the decision points of the server-core state machine at which a stray command is judged: msg() up to its forwarding send, schedule() after the type check, validate() and consts() - the statement runs are cut out of the async handlers on every run and executed on the real PolicyStateKind for the states a test cannot pin down (Init, ValidateRequested, Executing): the command is answered with an InvalidState / Unreachable error, the state and the MPC channel endpoints are left as they are, and the handler returns Continue without panicking.",
-    level_note="Partial: one command against one state (inductive step), states Init / ValidateRequested / Executing. Not covered: run()'s fallback arm (its other arms contain async closures the cut cannot avoid), states that hold a Garble TypedProgram beyond the empty program, the HTTP route, and that the computation's OUTPUT is unchanged (a whole-run statement; the check shows state, endpoints and control flow are unchanged). " + SEG,
+    level_note="Partial: one command against one state (inductive step), states Init / ValidateRequested / Executing. Not covered: which states run() sends into its invalid-state arm (only that arm's body is cut: the other arms contain async closures), states that hold a Garble TypedProgram beyond the empty program, the HTTP route, and that the computation's OUTPUT is unchanged (a whole-run statement; the check shows state, endpoints and control flow are unchanged). " + SEG,
     explanation="Kani/CBMC on statement runs cut from state.rs (msg, schedule, validate, consts).",
     outside="states Validated/SendingConsts/SendingConstsCompleted/Running as pre-state; interleavings of several commands; run().",
     assumptions=[FMT, TRACING, RS, ANS, ENVST],
     harnesses=by_prefix("c14_"),
-    segments=["sc_msg_head", "sc_schedule", "sc_validate", "sc_consts"],
+    segments=["sc_msg_head", "sc_schedule", "sc_validate", "sc_consts", "sc_run_fallback", "sc_executing_ctor"],
 )
 PROPS["C16"] = dict(
     level="model_checking",
-    level_text="Bounded model checking of the two places where a follower compares the leader's validate request with its own policy (validate() in AwaitingValidation, schedule() in ValidateRequested - both arrival orders), cut from the async handlers on every run: with a different leader or program hash the leader's validate call gets an error, the follower's schedule call is never answered Ok and the handler returns Break (the state machine ends before run/consts/MPC traffic can start); with equal leader and hash both calls get Ok exactly once and the policy is Validated.",
-    level_note="Partial: the follower-side comparison for both arrival orders. Not covered: the leader's reaction to the failed validate RPC (awaits an async closure), the ill-typed-program refusal (Garble type checker), the absence of MPC messages as a whole-run statement, n>3. " + SEG,
+    level_text="Bounded model checking of the refusal of an ill-typed program at the head of schedule(), of the leader's reaction to a refused validate round, and of the two places where a follower compares the leader's validate request with its own policy (validate() in AwaitingValidation, schedule() in ValidateRequested - both arrival orders), cut from the async handlers on every run: with a different leader or program hash the leader's validate call gets an error, the follower's schedule call is never answered Ok and the handler returns Break (the state machine ends before run/consts/MPC traffic can start); with equal leader and hash both calls get Ok exactly once and the policy is Validated.",
+    level_note="Partial: the follower-side comparison for both arrival orders. Not covered: the Garble type checker itself (its verdict is arbitrary), the absence of MPC messages as a whole-run statement, n>3. " + SEG,
     explanation="Kani/CBMC on statement runs cut from state.rs (validate, schedule).",
     outside="program hash modelled as two distinct one-byte strings; leader indices < 3.",
     assumptions=[FMT, TRACING, RS, ANS, ENVST, "Policy::program_hash() (BLAKE3, cpuid dispatch) replaced by a harness-chosen string; the comparison is the subject"],
     harnesses=by_prefix("c16_"),
-    segments=["sc_schedule", "sc_validate"],
+    segments=["sc_schedule", "sc_validate", "sc_schedule_head", "sc_leader_rpcs"],
 )
 PROPS["C17"] = dict(
     level="model_checking",
